@@ -196,7 +196,9 @@ def install(E, inline_types=(), target=None, adversarial=False):
             return NotImplemented
         if ty in inline and ty != target and isinstance(val, VLazy) and ty == "BigNum":
             return NotImplemented
-        s.tokens.append(("item", E_.as_u(val), ty))
+        # opt-in (E.item_carries_value): the opaque item remembers the value object itself, so that a decoder hands back the very
+        # value (with whatever was already unfolded of it) and not only its identity
+        s.tokens.append(("item", E_.as_u(val), ty) + ((_eng.clone(val),) if getattr(E_, "item_carries_value", False) else ()))
         return ok(args[1])
     E.extra_intrinsics[r" as (cbor_event::)?(se::)?Serialize>::serialize"] = nested_serialize
 
@@ -484,6 +486,8 @@ def install(E, inline_types=(), target=None, adversarial=False):
                 return ok(VEnum("Option", "None", []))
             if tok is not None and tok[0] == "item":
                 d.pos += 1
+                if len(tok) > 3 and tok[2] == tyn:
+                    return ok(VEnum("Option", "Some", [_eng.clone(tok[3])]))
                 lz = VLazy("decoded_%d" % d.pos, tyn)
                 E_.lazy_ident[lz.path] = tok[1]
                 return ok(VEnum("Option", "Some", [lz]))
@@ -514,6 +518,8 @@ def install(E, inline_types=(), target=None, adversarial=False):
             return NotImplemented
         if tok is not None and tok[0] == "item":
             d.pos += 1
+            if len(tok) > 3 and tok[2] == ty:
+                return ok(_eng.clone(tok[3]))
             lz = VLazy("decoded_%d" % d.pos, ty)
             E_.lazy_ident[lz.path] = tok[1]
             if tok[2] != ty:
